@@ -31,6 +31,7 @@ type Contract struct {
 	AtCallDo  map[string][]GhostSet // ghost assignments right after a call to the named callee
 	LoopUse   map[int][]ast.Expr  // manual axiom instantiations at loop heads
 	AtCall    map[string][]Clause // proof hints: assertions right after a call to the named callee
+	AtCallBefore map[string][]Clause // obligations in the state right before a call to the named callee
 	Unreachable map[string]bool // covers the contract declares dead on purpose (a deliberately restricted case)
 }
 
@@ -495,8 +496,28 @@ func parseContracts(path string, unit string) (map[string]*Contract, error) {
 				cur.AtCallDo[fields[2]] = append(cur.AtCallDo[fields[2]], gs)
 				continue
 			}
+			if len(fields) >= 5 && fields[1] == "call" && fields[3] == "before" {
+				// at call <callee> before [label] <expr>: an obligation in the state right BEFORE the call
+				rest := strings.TrimSpace(line[strings.Index(line, " before ")+8:])
+				label := ""
+				if m := labelRe.FindStringSubmatch(rest); m != nil {
+					label, rest = m[1], m[2]
+				}
+				e, err := parseSpecExpr(rest)
+				if err != nil {
+					return nil, fmt.Errorf("%s:%d: %v in %q", path, ln, err, rest)
+				}
+				if cur.AtCallBefore == nil {
+					cur.AtCallBefore = map[string][]Clause{}
+				}
+				if label == "" {
+					label = fmt.Sprintf("before_%s%d", fields[2], len(cur.AtCallBefore[fields[2]])+1)
+				}
+				cur.AtCallBefore[fields[2]] = append(cur.AtCallBefore[fields[2]], Clause{Label: label, Expr: e, Text: rest})
+				continue
+			}
 			if len(fields) < 5 || fields[1] != "call" || fields[3] != "assert" {
-				return nil, fmt.Errorf("%s:%d: expected `at call <callee> assert <expr>`", path, ln)
+				return nil, fmt.Errorf("%s:%d: expected `at call <callee> assert|before|do <expr>`", path, ln)
 			}
 			rest := strings.TrimSpace(line[strings.Index(line, " assert ")+8:])
 			label := ""
